@@ -131,6 +131,10 @@ type Pipestance struct {
 	lastQueueCheck time.Time
 	uuid           string
 
+	// True if this instance has created the lock file and not removed it
+	// since.
+	holdsLock bool
+
 	// Cache for self.node.allNodes()
 	allNodesCache    []*Node
 	queueCheckLock   sync.Mutex
@@ -908,6 +912,7 @@ func (self *Pipestance) Lock() error {
 	} else {
 		f.Close()
 	}
+	self.holdsLock = true
 	verifEvent("LockCreated", "path", self.GetPath())
 	util.RegisterSignalHandler(self)
 	if err := self.metadata.WriteTime(Lock); err != nil {
@@ -918,6 +923,12 @@ func (self *Pipestance) Lock() error {
 }
 
 func (self *Pipestance) unlock() {
+	if !self.holdsLock {
+		// The lock file, if there is one, belongs to another instance
+		// which has attached since this one gave the pipestance up.
+		return
+	}
+	self.holdsLock = false
 	if err := self.metadata.remove(Lock); err != nil {
 		util.LogError(err, "runtime", "Error removing pipestance lock file.")
 	}
